@@ -8,7 +8,11 @@ LEVEL = "model_checking"
 LEVEL_TEXT = ("TLC checks the goroutine-level model PacketScan (request source, N builders, merger, sender, buffer pool with identity, "
               "error stream; every error placement, every interleaving, small constants) for WireFaithful / WireNoDup / Complete / "
               "OneErrorPerFailure / DoneAfterLastWrite and its refinement to the seam-level specification PacketScanObs; a model with "
-              "the buffer freed before the write must fail WireFaithful (non-vacuity). Free-running, perturbed, race-detector executions "
+              "the buffer freed before the write must fail WireFaithful (non-vacuity). Behaviours of that model simulated by TLC (who steps when, "
+              "which requests / builds / writes fail, where the cancellation falls; plus a cancellation inserted before every 4th - thorough: "
+              "2nd - step) are replayed through the real generator, merger and sender goroutines by a director that holds every goroutine at "
+              "gate hooks (build tag verif) and releases one at a time: every step must be the model action between its two program points "
+              "(PacketScanL1Trace), and the seam events of the run a behaviour of PacketScanObs. Free-running, perturbed, race-detector executions "
               "of the real NewPacketSource+NewPacketMultiGenerator+NewSender+NewReceiver+NewPacketEngine (1..64 builders, up to 3500 "
               "requests, more failures than every channel buffer, writer holding frames while other frames are built) are recorded at "
               "the seams and every trace must be a behaviour of PacketScanObs (TLC trace validation).")
